@@ -8,16 +8,5 @@ CONSTANT InitBal = 2
 CONSTANT MaxCalls = 2
 CONSTANT Shared = TRUE
 VIEW view
-INVARIANT TypeOK
-INVARIANT Conservation
-INVARIANT ViewsExact
-INVARIANT ZeroIsInert
-INVARIANT OneLogPerSuccess
-PROPERTY LogHistoryGrowsByLast
-PROPERTY FailedChangesNothing
-PROPERTY NoTheft
 PROPERTY AllowanceFrame
-PROPERTY InfiniteAllowanceSticky
-PROPERTY BalanceFrame
-PROPERTY ApproveMovesNothing
 CHECK_DEADLOCK FALSE
